@@ -11,9 +11,9 @@ echo "== suite with change"
 unshare -n sh -c "ip link set lo up; cd $WT && GOPROXY=off go test -mod=mod -vet=off -count=1 ./... 2>&1 | tail -8"
 for d in $DEMOS; do cp /tmp/wt/$ID-keep/$d $d; done
 echo "== demo with change (expect FAIL) pkgs=$PKGS"
-unshare -n sh -c "ip link set lo up; cd $WT && GOPROXY=off go test $RACE -mod=mod -vet=off -count=1 -run 'Demo|demo|Seed|ZZ' $PKGS 2>&1 | grep -v 'DEBUG\|INFO\|WARN' | grep -- '^--- \|^FAIL\|^ok\|DATA RACE\|^panic' | head -20"
+unshare -n sh -c "ip link set lo up; cd $WT && GOPROXY=off go test $RACE -mod=mod -vet=off -count=1 -run 'Demo|demo|Seed|ZZ' $PKGS 2>&1 | grep -a -- '^--- \|^FAIL\|^ok\|DATA RACE\|^panic' | head -20"
 git diff > /tmp/wt/$ID-cur.patch; git apply -R /tmp/wt/$ID-cur.patch
 echo "== demo without change (expect ok)"
-unshare -n sh -c "ip link set lo up; cd $WT && GOPROXY=off go test $RACE -mod=mod -vet=off -count=1 -run 'Demo|demo|Seed|ZZ' $PKGS 2>&1 | grep -- '^--- \|^FAIL\|^ok\|DATA RACE\|^panic' | head"
+unshare -n sh -c "ip link set lo up; cd $WT && GOPROXY=off go test $RACE -mod=mod -vet=off -count=1 -run 'Demo|demo|Seed|ZZ' $PKGS 2>&1 | grep -a -- '^--- \|^FAIL\|^ok\|DATA RACE\|^panic' | head"
 git apply /tmp/wt/$ID-cur.patch
 echo "== final state"; git status --short
